@@ -46,6 +46,30 @@ CHECKS = {
    text="Pairs of reference-closed RIBs (shared generated base history plus an independent extension each; intended instances a subset of the target's; boundary id bases) are reconciled; the emitted operations are applied to the real target in the documented dependency order and each must be acknowledged by its own call; afterwards both RIBs' contents must be equal in every network instance, a second reconcile must be empty and the ids must be exactly base+1..base+n.",
    note="Trusted: rib.RIB semantics themselves (decided by C01-C03) since the oracle applies the operations to a real RIB; obs conversion.",
    design="DESIGN.md §4 C15"),
+ "C04": dict(
+   technique="model-based property testing of multi-session scripts (harness-owned interleaving at message granularity) against the election/session model, with before/after state snapshots through Get and hooks",
+   level="exploration",
+   text="Scripts of connect / negotiate / announce / operate / disconnect steps for 2-3 sessions (random up to 25 steps, exhaustive up to 4/5 steps over a 2-session alphabet) with announced ids and operation stamps drawn independently from a 128-bit lattice are run over in-process streams. An operation must be accepted iff its session is the model's primary and its stamp equals the session's last announced id and the highest id learnt; every other operation must be answered FAILED or end its RPC and leave Get contents, held operations, counters, election id and primary untouched.",
+   note="Trusted: the election model (primary = most recent announcer of an id >= all earlier ones, 128-bit compare); in-process streams; hooks for election state. Operations never become held here (C06 covers hand-over with held operations).",
+   design="DESIGN.md §4 C04"),
+ "C05": dict(
+   technique="exhaustive small-scope enumeration + rapid sequences of election announcements against an explicit election model, with a behavioural probe of the primary",
+   level="exploration",
+   text="All announcement sequences of length<=3 (quick) / <=4 (thorough) over the 9-id lattice {0,1,2}^2 and 3 sessions, plus random sequences with boundary-structured 128-bit ids, ties, decreases and disconnects. Every election response must carry exactly the running 128-bit maximum; a zero id must end that RPC with INVALID_ARGUMENT and change nothing; after every step the hook's (id, primary) must equal the model's, and every announced session's correctly stamped probe operation must be acknowledged iff it is the model's primary.",
+   note="Trusted: the model definition taken from the property text; sequential (harness-owned) interleaving only - concurrent announcements are examined under C11.",
+   design="DESIGN.md §4 C05"),
+ "C06": dict(
+   technique="model-based property testing of multi-session histories with a per-stream exactly-once result accounting oracle",
+   level="exploration",
+   text="Multi-session histories with batches of 1-8 operations over all tables (held operations that later resolve or fail, empty/unknown network instances, non-primary senders, wrong stamps), RIB-ack and FIB-ack, hand-over of the primary role while operations are held and per-session id counters that overlap across sessions. Per stream, up to a barrier after every request: no result for an id not sent on it; per id one of [FAILED], [RIB], [RIB,FIB]; never a verdict twice or failure and success; unanswered only if held, stream ended or primary role lost.",
+   note="Trusted: relation model deciding which operations are held; barrier-based quiescence of in-process streams; reading of gribi.proto that a fail-over discards the previous primary's held operations.",
+   design="DESIGN.md §4 C06"),
+ "C09": dict(
+   technique="exhaustive small-scope enumeration + rapid message sequences against a session-protocol model with an explicit table of acceptable termination statuses",
+   level="exploration",
+   text="All message sequences of total length<=3 (quick) / <=4 (thorough) over an 18-symbol alphabet on two sessions and random sequences up to 14 messages on three: parameter combinations, election ids, stamped/unstamped operations, multi-field and empty messages, half-closes. Each violation must end exactly that RPC with a code and ModifyRPCErrorDetails reason from the acceptable set; afterwards Get, held operations, counters, election id/primary and the other streams must be untouched, the session footprint must equal the open sessions and later sessions proceed normally.",
+   note="Trusted: the status table transcribed from gribi.proto comments and compliance expectations (sets where several statuses are acceptable); the tolerance for parameters checked against a not-yet-negotiated peer.",
+   design="DESIGN.md §4 C09"),
 }
 NOT_YET = {}
 
